@@ -1688,7 +1688,8 @@ package spec
 //@ specfn jFalse() smt:JV
 // encoding/json on plain slices: nil is null, anything else an array; the encoding of a value decodes, to a value of the
 // same length that encodes the same way
-//@ axiom forall s []string :: triggers(encOf(s)) && ((s == nil ==> encOf(s) == jNull()) && (s != nil ==> jIsArr(encOf(s))) && decOKOf("[]string", encOf(s))
+// (stated for well-formed slice values only: a nil slice has length 0)
+//@ axiom forall s []string :: triggers(encOf(s)) && (len(s) >= 0 && (s == nil ==> len(s) == 0) ==> (s == nil ==> encOf(s) == jNull()) && (s != nil ==> jIsArr(encOf(s))) && decOKOf("[]string", encOf(s))
 //@        && len(decOf("[]string", encOf(s))) == len(s) && encOf(decOf("[]string", encOf(s))) == encOf(s) && (s != nil ==> decOf("[]string", encOf(s)) != nil))
 //@ axiom forall s []Schema :: triggers(encOf(s)) && ((s == nil ==> encOf(s) == jNull()) && (s != nil ==> jIsArr(encOf(s))))
 //@ axiom forall j jsonvalue :: triggers(decOf("[]Schema", j)) && (jIsArr(j) && decOKOf("[]Schema", j) ==> decOf("[]Schema", j) != nil)
@@ -1703,7 +1704,7 @@ package spec
 
 //@ func verifLemmaStringOrArrayFixedPoint
 //@   property C07
-//@   requires len(v) >= 0
+//@   requires len(v) >= 0 && (v == nil ==> len(v) == 0)
 //@   ensures  [C07] encoded-form-decodes @@ result0 != nil ==> result1 != nil
 //@   ensures  [C07] fixed-point @@ result0 != nil && result1 != nil ==> jv(result1) == jv(result0)
 
@@ -1719,7 +1720,7 @@ package spec
 
 //@ func verifLemmaSchemaOrStringArrayFixedPoint
 //@   property C07
-//@   requires len(v.Property) >= 0 && (v.Schema != nil ==> schemaFP(*v.Schema))
+//@   requires len(v.Property) >= 0 && (v.Property == nil ==> len(v.Property) == 0) && (v.Schema != nil ==> schemaFP(*v.Schema))
 //@   ensures  [C07] encoded-form-decodes @@ result0 != nil ==> result1 != nil
 //@   ensures  [C07] fixed-point @@ result0 != nil && result1 != nil ==> jv(result1) == jv(result0)
 
